@@ -10,6 +10,7 @@ mod world;
 mod world_ext;
 mod checks;
 mod conc;
+mod crash;
 
 use report::ShardReport;
 use std::time::Instant;
